@@ -15,7 +15,7 @@ import (
 func init() {
 	register(&Spec{ID: "C08", Title: "Login succeeds exactly when the server accepted it", Run: runC08,
 		Meta: core.Meta{
-			Explanation: "R08.19 = R06.4 (read-side byte accounting, including the locale information of a parameter format: a valid acceptance whose key parameters carry locale information is not rejected). R08.18 = R01.8 (SendRemainingPackets resets on every exit, and nothing else on the send path does: a reset inside QueuePackage's early flush clears lastPkgTx in the middle of the login message). R08.16 = R10.9, R08.17 = R09.3. R08.15 = R02.11. R08.8 also requires the announced size to be parsed with strconv.Atoi or at a width of at least 17 bits. R08.13 = R02.1 (rollback of a failed attempt, unconditional, to the position read for it: a valid acceptance whose reply is split inside a field still succeeds). R08.14 = R06.19 (an ENVCHANGE member with an empty old value is counted in full: the package in front of the LOGINACK ends where it should). R08.12 = R03.15 (tryParsePackage answers false after reporting a parse error: NextPackage prefers queued packages to queued errors, so packages delivered from behind a malformed one would let Login succeed). R08.11 ('never a crash'): C10's E-LEN obligations for every index/slice expression in the ReadFrom(BytesChannel) parsers of package tds, which run in the reader goroutine where the caller of Login cannot recover a panic. R08.10: CapabilityPackage.Capabilities is stored only into a package allocated in the storing function (the constructor); ReadFrom overwrites masks by key, so the all-false default of a type the server did not answer is still there for Login's all-zero test. Guard-dominance check (E-DOM) of Channel.Login against the acceptance script of the property statement (the required-guard table is written from the statement, not from the code). R08.1: every nil-error return of Login is dominated by the script of its flow — plain: LOGINACK asserted, Status == TDS_LOG_SUCCEED, DONE asserted, exact final test on its status; encrypted: LOGINACK asserted with Status == NEGOTIATE, MSG asserted with MsgId == TDS_MSG_SEC_ENCRYPT4, PARAMFMT asserted with exactly 3 formats, PARAMS asserted with exactly 3 fields, DONE asserted, Int4 cipher-suite field asserted with int32 value == 1, two LongBinary fields asserted with []byte values, NextPackageUntil's error nil with a callback that returns (true,nil) only under LOGINACK asserted and Status == SUCCEED, CAPABILITY asserted, Conn.Caps := that package stored, the all-zero mask test, DONE asserted, exact final test. A mask test against the zero-valued TDS_DONE_FINAL is recognised as constant and does not count. R08.2: every asserted package value comes from a NextPackage call whose error is known nil at the return. R08.3: every error-returning call in Login is checked: if it dominates a success return its error is known nil there, otherwise (loop bodies) its failure edge returns a non-nil error. R08.4: every context argument in Login (and its closure) derives from the caller's ctx, and every *Channel method reachable from Login that takes a ctx passes on only contexts derived from its own parameter (the drain inside NextPackageUntil included), so no wait outlives the caller's context. R08.5: every comma-ok assertion in Login is satisfiable in the module's MakeInterface universe. R08.6: the all-zero capability test restarts from `true` for every capability type (the flag's loop-entry value is the constant true inside the outer loop) and its true edge returns an error. R08.7: the reply parsers tolerate every packetisation of the replies — C07's E-ERR obligation over all wire-read call sites is re-run (a parser that reports a short read as a different error makes a valid, merely fragmented acceptance fail). R08.9: in rsaEncrypt the block returned by pem.Decode is dereferenced only under a guard that implies it is non-nil (an explicit nil test, or len(rest) == 0 for the rest exactly as Decode returned it; Login never passes an empty key). R08.8: the packet size the server announces is applied: every iteration of handleSpecialPackage's member loop evaluates the PACKSIZE test (no shortcut skips a member first).",
+			Explanation: "R08.20 = R06.26 (a message id of 0x0123 must not compare equal to 0x23). R08.21 = R06.27 (a nonce announced as VARBINARY must not pass the *LongBinaryFieldData assertion). R08.19 = R06.4 (read-side byte accounting, including the locale information of a parameter format: a valid acceptance whose key parameters carry locale information is not rejected). R08.18 = R01.8 (SendRemainingPackets resets on every exit, and nothing else on the send path does: a reset inside QueuePackage's early flush clears lastPkgTx in the middle of the login message). R08.16 = R10.9, R08.17 = R09.3. R08.15 = R02.11. R08.8 also requires the announced size to be parsed with strconv.Atoi or at a width of at least 17 bits. R08.13 = R02.1 (rollback of a failed attempt, unconditional, to the position read for it: a valid acceptance whose reply is split inside a field still succeeds). R08.14 = R06.19 (an ENVCHANGE member with an empty old value is counted in full: the package in front of the LOGINACK ends where it should). R08.12 = R03.15 (tryParsePackage answers false after reporting a parse error: NextPackage prefers queued packages to queued errors, so packages delivered from behind a malformed one would let Login succeed). R08.11 ('never a crash'): C10's E-LEN obligations for every index/slice expression in the ReadFrom(BytesChannel) parsers of package tds, which run in the reader goroutine where the caller of Login cannot recover a panic. R08.10: CapabilityPackage.Capabilities is stored only into a package allocated in the storing function (the constructor); ReadFrom overwrites masks by key, so the all-false default of a type the server did not answer is still there for Login's all-zero test. Guard-dominance check (E-DOM) of Channel.Login against the acceptance script of the property statement (the required-guard table is written from the statement, not from the code). R08.1: every nil-error return of Login is dominated by the script of its flow — plain: LOGINACK asserted, Status == TDS_LOG_SUCCEED, DONE asserted, exact final test on its status; encrypted: LOGINACK asserted with Status == NEGOTIATE, MSG asserted with MsgId == TDS_MSG_SEC_ENCRYPT4, PARAMFMT asserted with exactly 3 formats, PARAMS asserted with exactly 3 fields, DONE asserted, Int4 cipher-suite field asserted with int32 value == 1, two LongBinary fields asserted with []byte values, NextPackageUntil's error nil with a callback that returns (true,nil) only under LOGINACK asserted and Status == SUCCEED, CAPABILITY asserted, Conn.Caps := that package stored, the all-zero mask test, DONE asserted, exact final test. A mask test against the zero-valued TDS_DONE_FINAL is recognised as constant and does not count. R08.2: every asserted package value comes from a NextPackage call whose error is known nil at the return. R08.3: every error-returning call in Login is checked: if it dominates a success return its error is known nil there, otherwise (loop bodies) its failure edge returns a non-nil error. R08.4: every context argument in Login (and its closure) derives from the caller's ctx, and every *Channel method reachable from Login that takes a ctx passes on only contexts derived from its own parameter (the drain inside NextPackageUntil included), so no wait outlives the caller's context. R08.5: every comma-ok assertion in Login is satisfiable in the module's MakeInterface universe. R08.6: the all-zero capability test restarts from `true` for every capability type (the flag's loop-entry value is the constant true inside the outer loop) and its true edge returns an error. R08.7: the reply parsers tolerate every packetisation of the replies — C07's E-ERR obligation over all wire-read call sites is re-run (a parser that reports a short read as a different error makes a valid, merely fragmented acceptance fail). R08.9: in rsaEncrypt the block returned by pem.Decode is dereferenced only under a guard that implies it is non-nil (an explicit nil test, or len(rest) == 0 for the rest exactly as Decode returned it; Login never passes an empty key). R08.8: the packet size the server announces is applied: every iteration of handleSpecialPackage's member loop evaluates the PACKSIZE test (no shortcut skips a member first).",
 			NotDecided:  "Reply histories are not explored (no peer is simulated); key sizes, packet size after login (C11) and timing are not decided.",
 			Assumptions: []string{"the acceptance script transcribes the property statement", "NextPackage returns the packages in arrival order (C02/C03)"},
 		}})
@@ -54,6 +54,10 @@ func runC08(r *core.Run) {
 	defer c03Reset(r, "R08.18")
 	r.Rule("R08.19", "the reply's format readers count every byte they read (R06.4)", 60, true)
 	defer func() { c06AccountingAs(r, newErrFlow(r.Prog), "R08.19") }()
+	r.Rule("R08.20", "a message id read from the wire keeps its width (R06.26)", 40, false)
+	defer wireReadsNotNarrowed(r, "R08.20")
+	r.Rule("R08.21", "a parameter announced with one type is not read as another (R06.27)", 30, false)
+	defer lookupSiblingsAgree(r, "R08.21")
 
 	login := p.Func("tds", "Channel", "Login")
 	nextPkg := p.Func("tds", "Channel", "NextPackage")
